@@ -758,6 +758,11 @@ func (i *interpreter) callBuiltin(caller *frame, callpos token.Pos, fn *ssa.Buil
 		for k := 0; k < n; k++ {
 			tmp[k] = copyVal(ss[k])
 		}
+		if i.watch != nil {
+			for k := 0; k < n; k++ {
+				i.noteStore(&dst[k])
+			}
+		}
 		copy(dst, tmp)
 		return n
 
